@@ -200,25 +200,35 @@ def run_params(rng, klen, ref_lines, tractable):
         threshold = None if rng.random() < 0.8 else 10 ** 9
     else:
         threshold = 1 if rng.random() < 0.8 else None
-    mode = rng.choice(["fixed", "straddle", "straddle", "table"])
+    mode = rng.choice(["fixed", "straddle", "straddle", "table", "delivery"])
     speeds = list(procs.SPEEDS)
+    extra = {}
     if mode == "fixed":
         timeout = rng.choice(TIMEOUTS)
     elif mode == "table":
         timeout = rng.choice([0, 1, 2])
+    elif mode == "delivery":
+        timeout = 1
     else:
         timeout = rng.choice([0.1, 0.3, 1, 2, 10])
         # scale per-line costs so that the total search work straddles the deadline
         eff = workers if (threshold == 1 or (threshold is None and klen >= 50)) else 1
         eff = max(1, min(eff, klen))
-        work = max(ref_lines, 200)
+        # (intractable kernels: let the deadline strike after at most ~4e5 lines of search in total)
+        work = max(ref_lines if tractable else min(ref_lines, 400000), 200)
         u = rng.choice([0.3, 0.7, 1.0, 1.0, 1.5, 3.0])
         mid = timeout * eff / work * u
         speeds = [mid * f for f in (0.1, 0.5, 1.0, 2.0, 8.0)]
+    if mode == "delivery":
+        # delivery-heavy cost model: searching is almost free, handing results over is what takes time,
+        # so the deadline strikes while workers are in the middle of (possibly multi-part) deliveries
+        speeds = [1e-7, 2e-7, 5e-7, 1e-6, 1e-6]
+        extra = {"rtt": rng.choice([1e-3, 1e-2]), "item_cost": rng.choice([1e-5, 1e-4])}
+        timeout = rng.choice([0.1, 0.3, 1, 2])
     if not tractable and timeout in (-1, GENEROUS):
         timeout = rng.choice([0, 1, 2])
-    return {"workers": workers, "threshold": threshold, "timeout": timeout, "speeds": speeds,
-            "via_cli": rng.random() < 0.15}
+    return dict({"workers": workers, "threshold": threshold, "timeout": timeout, "speeds": speeds,
+                 "via_cli": rng.random() < 0.15}, **extra)
 
 
 def make_spec(case_spec, params):
@@ -298,7 +308,7 @@ def run_job(job):
     agg.notes["wall_ms_ref:" + job.get("tag", "")] += int((batch.real_now() - t_job) * 1000)
     agg.notes["case_tractable" if ref["tractable"] else "case_intractable"] += 1
     n_runs = job["n"]
-    if ref["lines"] > 150000 and job.get("tag") == "sim-timeout":
+    if ref["lines"] > 150000 and job.get("tag") == "sim-timeout" and not cs.get("keep_runs"):
         n_runs = max(1, n_runs // 6)
         agg.notes["heavy_case_runs_reduced"] += 1
     for i in range(job["first"], job["first"] + n_runs):
@@ -412,6 +422,13 @@ def build_cases(tier, seed):
     long_lcd = [s for s in shipped if "long_LCD" in s[0]]
     for name, isa, text in long_lcd:
         dense.append({"name": name, "arch": "zen1", "text": text})
+    # many-but-enumerable paths per root (2^(n/2)): workers finish roots and make long, multi-part deliveries
+    for j in range(3 if tier == "quick" else 16):
+        isa = "x86" if j % 2 == 0 else "aarch64"
+        n = rng.choice([18, 20, 20])
+        shape, t = corpus.gen_dense_kernel(isa, rng, n, "layers2")
+        dense.append({"name": "gen/dense-%s-%d-%d" % (shape, n, j), "arch": "zen1" if isa == "x86" else arm_models[j % 4], "text": t,
+                      "more_runs": True})
     nd = 5 if tier == "quick" else 40
     for j in range(nd):
         isa = "x86" if j % 2 == 0 else "aarch64"
@@ -435,6 +452,8 @@ def build_jobs(tier, seed):
         big = "long_LCD" in cs["name"]
         per = 2 if big else 3
         total = (4 if big else n_dense) if tier == "quick" else (40 if big else n_dense)
+        if cs.get("more_runs"):
+            total = 42 if tier == "quick" else 180
         for first in range(0, total, per):
             jobs.append({"case": dict(cs, ref_cap=15000), "n": min(per, total - first), "first": first,
                          "seed": seed, "tag": "sim-timeout-dense"})
